@@ -294,13 +294,13 @@ fn corruptions_for(arg: &Arg) -> Vec<Corruption> {
     match arg.loc {
         Loc::Path => {
             if typed(arg.ty) {
-                vec![Unparsable]
+                vec![Unparsable, NotText]
             } else {
-                vec![]
+                vec![NotText]
             }
         }
         Loc::Query(_) => {
-            let mut v = vec![];
+            let mut v = vec![NotText];
             if single_valued(arg.ty) && !optional(arg.ty) {
                 v.push(Absent);
             }
@@ -327,7 +327,13 @@ fn corruptions_for(arg: &Arg) -> Vec<Corruption> {
     }
 }
 
+/// U+E000 in a value stands for the raw byte 0xFF (percent-encoded as %FF): text that is not valid UTF-8.
+const RAW_FF: char = '\u{e000}';
+
 fn pct(s: &str) -> String {
+    if s.contains(RAW_FF) {
+        return s.split(RAW_FF).map(pct).collect::<Vec<_>>().join("%FF");
+    }
     let mut o = String::new();
     for b in s.bytes() {
         if b.is_ascii_alphanumeric() || b"-._~".contains(&b) {
@@ -349,6 +355,8 @@ struct Rendered {
     safe_expected: Vec<(&'static str, String)>,
     /// declared names of corrupted path/query/header arguments, auth corrupted?, body corrupted?
     bad_params: Vec<&'static str>,
+    /// untyped (string) path / query arguments given text that is not valid UTF-8: ("path" | "query", name)
+    lossy: Vec<(&'static str, &'static str)>,
     bad_auth: bool,
     bad_body: bool,
     corruption_sig: String,
@@ -359,7 +367,7 @@ fn render(r: &mut Rng, ep: &Ep, corrupt: bool) -> Rendered {
     let mut path_vals = vec![];
     let mut query = vec![];
     let mut body = vec![];
-    let mut out = Rendered { uri: String::new(), headers: HeaderMap::new(), body: vec![], tainted: vec![], safe_expected: vec![], bad_params: vec![], bad_auth: false, bad_body: false, corruption_sig: String::new() };
+    let mut out = Rendered { uri: String::new(), headers: HeaderMap::new(), body: vec![], tainted: vec![], safe_expected: vec![], bad_params: vec![], lossy: vec![], bad_auth: false, bad_body: false, corruption_sig: String::new() };
     // choose which arguments to corrupt: usually one, sometimes several
     let mut chosen: Vec<(usize, Corruption)> = vec![];
     if corrupt {
@@ -416,6 +424,16 @@ fn render(r: &mut Rng, ep: &Ep, corrupt: bool) -> Rendered {
             Loc::Path => {
                 let v = gen_val(r, arg.ty);
                 match c {
+                    Some(Corruption::NotText) => {
+                        out.bad_params.push(arg.name);
+                        if !typed(arg.ty) {
+                            out.lossy.push(("path", arg.name));
+                        }
+                        if typed(arg.ty) || !arg.safe {
+                            note_taint(&mut out, &[bad.clone()]);
+                        }
+                        path_vals.push(format!("{}{}", bad, RAW_FF));
+                    }
                     Some(_) => {
                         out.bad_params.push(arg.name);
                         note_taint(&mut out, &[bad.clone()]);
@@ -451,6 +469,16 @@ fn render(r: &mut Rng, ep: &Ep, corrupt: bool) -> Rendered {
                         let second = extra.texts.first().cloned().unwrap_or_else(|| first.clone());
                         query.push((key, first));
                         query.push((key, second));
+                    }
+                    Some(Corruption::NotText) => {
+                        out.bad_params.push(arg.name);
+                        if !typed(arg.ty) {
+                            out.lossy.push(("query", arg.name));
+                        }
+                        if typed(arg.ty) || !arg.safe {
+                            note_taint(&mut out, &[bad.clone()]);
+                        }
+                        query.push((key, format!("{}{}", bad, RAW_FF)));
                     }
                     Some(_) => {
                         out.bad_params.push(arg.name);
@@ -678,6 +706,18 @@ fn case(seed: u64, rep: &mut Report, mode: Mode) {
                     }
                 }
             }
+            // ---- decode failures: arguments are decoded one after the other, so of two declared-safe arguments A and B at
+            // least one direction holds: B is recorded when only A fails, or A is recorded when only B fails. The
+            // observations are collected per (endpoint, flavour) and confronted after the run (see `run`).
+            if res.is_err() && rq.bad_params.len() == 1 && !rq.bad_auth && !rq.bad_body && o.calls.is_empty() {
+                let x = rq.bad_params[0];
+                if ep.args.iter().any(|a| a.name == x && a.safe) {
+                    for (n, _) in &rq.safe_expected {
+                        let present = o.safe_params.iter().any(|(k, _)| k == n);
+                        rep.cell(&format!("order/{}/{}/{}/{}/{}", flavour, ep.name, x, n, if present { "present" } else { "absent" }));
+                    }
+                }
+            }
             // ---- positive half: on success every safe argument is there under its declared name
             if res.is_ok() && !corrupted {
                 for (n, _) in &rq.safe_expected {
@@ -698,6 +738,16 @@ fn case(seed: u64, rep: &mut Report, mode: Mode) {
                 return;
             }
             if !o.calls.is_empty() {
+                let only_lossy = !rq.bad_auth && !rq.bad_body && rq.bad_params.iter().all(|p| rq.lossy.iter().any(|(_, n)| n == p));
+                if only_lossy {
+                    // one signature per location kind: string arguments whose text is not valid UTF-8 are decoded lossily
+                    let mut kinds: Vec<&str> = rq.lossy.iter().map(|(k, _)| *k).collect();
+                    kinds.sort();
+                    kinds.dedup();
+                    rep.violation(sub, seed, format!("handler-invoked:string-argument-not-valid-text:{}", kinds.join("+")),
+                        detail("handler ran with a lossily decoded (U+FFFD) string argument although its text is not valid UTF-8", json!(null)));
+                    return;
+                }
                 rep.violation(sub, seed, format!("{}:handler-invoked:{}", ep.name, rq.corruption_sig), detail("handler ran although an argument is undecodable", json!(null)));
                 return;
             }
@@ -783,6 +833,24 @@ pub fn run(ctx: &Ctx, report: &mut Report, mode: Mode) {
                 rep.violation("token-debug", seed, "token-debug-leaks", json!({"debug": d}));
             }
         });
+    }
+    if mode == Mode::C09 && ctx.replay.is_none() {
+        // cells order/<flavour>/<endpoint>/<failing safe arg>/<other safe arg>/<present|absent>
+        let cells: Vec<Vec<String>> = report.matrix.keys().filter(|k| k.starts_with("order/")).map(|k| k.split('/').map(|s| s.to_string()).collect()).collect();
+        let absent = |fl: &str, ep: &str, a: &str, b: &str| cells.iter().any(|c| c.len() == 6 && c[1] == fl && c[2] == ep && c[3] == a && c[4] == b && c[5] == "absent");
+        let mut reported = std::collections::BTreeSet::new();
+        let mut pairs = 0u64;
+        for c in &cells {
+            if c.len() != 6 || c[5] != "absent" || c[3] >= c[4] {
+                continue;
+            }
+            pairs += 1;
+            if absent(&c[1], &c[2], &c[4], &c[3]) && reported.insert((c[1].clone(), c[2].clone())) {
+                report.violation("canaries", 0, format!("safe-args-dropped-on-decode-failure:{}", c[2]),
+                    json!({"endpoint": c[2], "flavour": c[1], "what": format!("`{}` is not recorded when only `{}` fails to decode, and `{}` is not recorded when only `{}` fails: no decoding order explains both", c[4], c[3], c[3], c[4])}));
+            }
+        }
+        report.cell_n("order/pairs-confronted", pairs.max(1));
     }
     if ctx.replay.is_none() {
         report.floor_cells("endpoint-cells", "blocking/", 20);
